@@ -59,13 +59,7 @@ class BaseMatcher(ABC):
 
 @dataclass(frozen=True, slots=True)
 class AnyMatcher(BaseMatcher):
-    _instance: ClassVar[AnyMatcher | None] = None
-
-    def __new__(cls, *args: Any, **kwargs: Any) -> AnyMatcher:
-        if cls._instance is None:
-            cls._instance = object.__new__(cls)
-        return cls._instance
-
+    # Not a singleton: every occurence in a pattern carries its own capture name
     def _match(self, value: Any, ctx: _Vars) -> _MatchRes:
         return (True, {})
 
@@ -123,7 +117,6 @@ class VarMatcher(BaseMatcher):
 @dataclass(frozen=True, slots=True)
 class SequenceMatcher(BaseMatcher):
     matchers: tuple[BaseMatcher, ...]
-    tail_matcher: AnyMatcher | None = field(default=None, init=False)
 
     def __post_init__(self) -> None:
         if len(self.matchers) == 0:
@@ -132,21 +125,28 @@ class SequenceMatcher(BaseMatcher):
                 " Use ValueMatcher with empty tuple instead."
             )
 
-        if isinstance(self.matchers[-1], AnyMatcher):
-            object.__setattr__(self, "tail_matcher", self.matchers[-1])
-            object.__setattr__(self, "matchers", self.matchers[:-1])
+    @property
+    def tail_matcher(self) -> AnyMatcher | None:
+        """The trailing any matcher (`*`), if the sequence ends with one.
+
+        Derived from `matchers` (not stored), so that a copy made with
+        dataclasses.replace, e.g. to add a capture name, keeps its tail.
+        """
+        last = self.matchers[-1]
+        return last if isinstance(last, AnyMatcher) else None
 
     def _match(self, value: Any, ctx: _Vars) -> _MatchRes:
         if not isinstance(value, Sequence):
             return (False, {})
 
-        any_tail = self.tail_matcher is not None
+        tail_matcher = self.tail_matcher
+        matchers = self.matchers if tail_matcher is None else self.matchers[:-1]
 
-        # If we have any tail, we can match sequence of any length
-        # but if we don't have any tail, we can exit early if the lengths
-        # don't match
-        if (not any_tail and len(value) != len(self.matchers)) or (
-            any_tail and len(value) < len(self.matchers) - 1
+        # If we have any tail, we can match sequence of any length not shorter
+        # than the listed elements, but if we don't have any tail, we can exit
+        # early if the lengths don't match
+        if (tail_matcher is None and len(value) != len(matchers)) or (
+            tail_matcher is not None and len(value) < len(matchers)
         ):
             return (False, {})
 
@@ -156,7 +156,7 @@ class SequenceMatcher(BaseMatcher):
         ret_vars: dict[str, Any] = {}
 
         # Start with non-tail matchers
-        for matcher, val in zip(self.matchers, value, strict=False):
+        for matcher, val in zip(matchers, value, strict=False):
             ok, new_vars = matcher.match(val, local_ctx)
             if not ok:
                 return (False, {})
@@ -165,9 +165,9 @@ class SequenceMatcher(BaseMatcher):
             ret_vars.update(new_vars)
 
         # If we have any tail, match it against the rest of the sequence
-        if self.tail_matcher:
+        if tail_matcher is not None:
             # Any always matches so we only doing this for possible captures
-            _, new_vars = self.tail_matcher.match(value[len(self.matchers) :], local_ctx)
+            _, new_vars = tail_matcher.match(value[len(matchers) :], local_ctx)
 
             ret_vars.update(new_vars)
 
